@@ -99,7 +99,7 @@ def addop(operator, prec, fun, numargs=None):
 a = addop
 a(UMinus, 10, lambda x: -x)
 a(UPlus, 10, lambda x: x)
-a("^", 10, math.pow, 2)
+a("^", 8, math.pow, 2)
 a("not", 9, lambda x: int(not bool(x)))
 a("abs", 9, abs, 1)
 a("sin", 9, math.sin, 1)
@@ -117,10 +117,10 @@ a("trunc", 9, int, 1)
 a("e", 11, lambda x, y: x * math.pow(10, y))
 a("E", 11, lambda x, y: x * math.pow(10, y))
 
-a("*", 8, lambda x, y: x * y)
-a("/", 8, lambda x, y: x / y)
-a("div", 8, lambda x, y: x / y)
-a("mod", 8, lambda x, y: int(x) % int(y))
+a("*", 7, lambda x, y: x * y)
+a("/", 7, lambda x, y: x / y)
+a("div", 7, lambda x, y: x / y)
+a("mod", 7, lambda x, y: int(x) % int(y))
 
 
 a("+", 6, lambda x, y: x + y)
